@@ -7,7 +7,8 @@ From DV Require Import Model.PyPrims Gen.CharClasses Model.Tokenizer Model.Newic
      Model.C02Nexus Model.C02NexusSpec
      Model.C02Nexml Model.C02FlagsSpec
      Proofs.C02Escape Proofs.C02Main Proofs.C02ListMain Proofs.C02NexusDoc Proofs.C02NexusRead Proofs.C02NexusMain
-     Proofs.C02Nexml Proofs.C02NexmlMain Proofs.C02Flags.
+     Proofs.C02Nexml Proofs.C02NexmlMain Proofs.C02Flags
+     Model.C02GenPrims Gen.NewickGen Model.C02GenSpec Proofs.C02GenEsc Proofs.C02GenTok Proofs.C02GenWriter Proofs.C02GenReader.
 Import ListNotations.
 Open Scope Z_scope.
 
@@ -263,3 +264,129 @@ Theorem trailing_blank_leaf_refuted :
     = Ok ([mkPR None [] (PN None None None [] [PN (Some 0%nat) None None [] []])], [[97]]).
 Proof. exact trailing_blank_leaf_refuted_l. Qed.
 Print Assumptions trailing_blank_leaf_refuted.
+
+(* ------------------------------------------------------------------------------------------------ *)
+(* TRANSLATOR TIE.  Gen/NewickGen.v is regenerated from the Python source on every run by
+   py/dv/gen_newick.py (statement-by-statement compilation over Model/C02GenPrims.v).  The theorems
+   below state that the generated functions equal the hand-written model functions used by all
+   theorems above, so those theorems hold of the generated code by rewriting. *)
+
+(* escape_nexus_token(label, preserve_spaces, quote_underscores, protect_regex) for a str label;
+   re.search(protect_regex, .) is the membership test in the character class `protect`. *)
+Theorem gen_escape_nexus_token_eq :
+  forall protect ps qu label,
+    py_escape_nexus_token tt (Some label) ps qu protect = MRet (Some (escape_token protect ps qu label)) tt.
+Proof. exact py_escape_nexus_token_eq. Qed.
+Print Assumptions gen_escape_nexus_token_eq.
+
+(* Tokenizer.__next__ (with _scan_token, _skip_to_significant_char, _handle_comment, _get_next_char)
+   from any state the tokenizer can be in (tk_wf: _cur_char is None, "" at the end of the source, or
+   one character): token, quoting flag, comments captured during the call and remaining stream are
+   those of the model's next_token on the state's stream; StopIteration / UnterminatedQuoteError
+   likewise.  The loops' fuel (tk_fuel) never runs out. *)
+Theorem gen_tokenizer_next_eq :
+  forall cfg o, tk_wf o -> tok_view o (py_tk_next cfg o) = next_token cfg (tk_stream o).
+Proof. exact py_tk_next_eq. Qed.
+Print Assumptions gen_tokenizer_next_eq.
+
+(* Iterating the generated __next__ over a text from Tokenizer.__init__'s state, recording after
+   each token is_token_quoted, the new captured comments and is_eof(), is the model's `tokenize`. *)
+Theorem gen_tokenize_eq :
+  forall cfg text, py_tokens cfg (S (length text)) (tk_init text) = tokenize cfg text.
+Proof. exact py_tokenize_eq. Qed.
+Print Assumptions gen_tokenize_eq.
+
+(* NexusTaxonSymbolMapper: add_translate_token, and require_taxon_for_symbol = lookup_taxon_symbol
+   with creation: TRANSLATE token, then label, then (if enabled) taxon number, then a new taxon. *)
+Theorem gen_add_translate_token_eq :
+  forall lower m token taxon,
+    py_map_add_translate_token lower m token taxon = MRet tt (add_translate_token lower m token taxon).
+Proof. exact py_map_add_translate_token_eq. Qed.
+Print Assumptions gen_add_translate_token_eq.
+
+Theorem gen_require_taxon_for_symbol_eq :
+  forall lower m symbol,
+    py_map_require_taxon_for_symbol lower m symbol
+    = MRet (Some (fst (require_taxon_for_symbol lower m symbol))) (snd (require_taxon_for_symbol lower m symbol)).
+Proof. exact py_map_require_taxon_for_symbol_eq. Qed.
+Print Assumptions gen_require_taxon_for_symbol_eq.
+
+(* NewickWriter (options outside the model fixed as listed in Gen/NewickGen.v).  A node is handed to
+   the callbacks as (subtree, number of children of its parent or None, own position). *)
+Theorem gen_render_node_tag_eq :
+  forall L render_len wo out t p i,
+    py_wr_render_node_tag L render_len wo out (mkWnode t p i) = MRet (Some (render_node_tag L wo t)) out.
+Proof. exact py_wr_render_node_tag_eq. Qed.
+Print Assumptions gen_render_node_tag_eq.
+
+Theorem gen_write_node_body_eq :
+  forall L render_len wo out t p i,
+    py_wr_write_node_body L render_len wo out (mkWnode t p i) = MRet tt (out ++ write_node_body L render_len wo t).
+Proof. exact py_wr_write_node_body_eq. Qed.
+Print Assumptions gen_write_node_body_eq.
+
+(* _write_tree: rooting token, then Node.apply with _write_node_open / _write_node_close / _write_leaf
+   (the bracket structure of apply is C15's apply_brackets, here the primitive apply_node), then ";" *)
+Theorem gen_write_tree_eq :
+  forall L render_len wo out r t,
+    py_wr_write_tree L render_len wo out (mkWtree r t) = MRet tt (out ++ write_tree L render_len wo r t).
+Proof. exact py_wr_write_tree_eq. Qed.
+Print Assumptions gen_write_tree_eq.
+
+Theorem gen_write_tree_list_eq :
+  forall L render_len wo out ts,
+    py_wr_write_tree_list L render_len wo out (map (fun rt => mkWtree (fst rt) (snd rt)) ts)
+    = MRet tt (out ++ write_tree_list L render_len wo ts).
+Proof. exact py_wr_write_tree_list_eq. Qed.
+Print Assumptions gen_write_tree_list_eq.
+
+(* NewickReader (options outside the model fixed as listed in Gen/NewickGen.v).  The object state is
+   Model/Newick.v pstate (token-level view of the tokenizer + reader fields + symbol mapper); nodes and
+   trees under construction are values (copy-in / copy-out, see Model/C02GenPrims.v). *)
+Theorem gen_parse_tree_rooting_state_eq :
+  forall L parse_len lower ro fuel st c,
+    py_rd_parse_tree_rooting_state L parse_len lower ro fuel st (Some c) = MRet (parse_tree_rooting_state ro c) st.
+Proof. exact py_rd_parse_tree_rooting_state_eq. Qed.
+Print Assumptions gen_parse_tree_rooting_state_eq.
+
+(* _process_tree_comments on the comments pulled from the tokenizer (None when there are none) *)
+Theorem gen_process_tree_comments_eq :
+  forall L parse_len lower ro fuel st tree cs,
+    py_rd_process_tree_comments L parse_len lower ro fuel st tree (to_olist cs)
+    = MRet (mkRtree (fst (process_tree_comments ro cs))
+                    (snd (process_tree_comments_loop ro cs None (rt_comments tree))) (rt_seed tree)) st.
+Proof. exact py_rd_process_tree_comments_eq. Qed.
+Print Assumptions gen_process_tree_comments_eq.
+
+(* _parse_tree_node_description (the children loop `for count in it.count()`, the comma loop, the
+   label / length / terminator loop, the recursion): whenever the model's parse_node returns a result
+   with fuel f, the generated function returns the same node and state (resp. an exception of the
+   same class) for every fuel g >= f.  Preconditions, both established by _parse_tree_statement: a
+   current token exists, and the level counts an opening parenthesis the node starts with.
+   ro_blank_after_comma = true selects the repaired reader form (e32b705e); the CURRENT source is
+   proved equal to that variant only - the model variant `false` describes the former code. *)
+Theorem gen_parse_tree_node_description_eq :
+  forall L parse_len lower ro, ro_blank_after_comma ro = true ->
+  forall g f st pre isint, (f <= g)%nat -> ps_cur st <> None -> (cur_is st LPAREN = true -> 1 <= ps_nesting st) ->
+  match parse_node L parse_len lower ro f st isint pre with
+  | Ok (t, st') => py_rd_parse_tree_node_description L parse_len lower ro g st (PN None None None pre []) isint = MRet t st'
+  | Err e => exists x o, py_rd_parse_tree_node_description L parse_len lower ro g st (PN None None None pre []) isint = MExc x o
+                         /\ exc_err x = e
+  | OutOfFuel => True
+  end.
+Proof. exact node_gen_expanded. Qed.
+Print Assumptions gen_parse_tree_node_description_eq.
+
+(* _parse_tree_statement: skipping of ";" and comments, rooting / tree comments, the seed node, the
+   completeness check and the trailing ";" loop. *)
+Theorem gen_parse_tree_statement_eq :
+  forall L parse_len lower ro, ro_blank_after_comma ro = true -> forall fuel st,
+  match parse_tree_statement L parse_len lower ro fuel st with
+  | Ok (None, st') => py_rd_parse_tree_statement L parse_len lower ro fuel st = MRet None st'
+  | Ok (Some pr, st') =>
+    py_rd_parse_tree_statement L parse_len lower ro fuel st = MRet (Some (mkRtree (pr_is_rooted pr) (pr_comments pr) (pr_tree pr))) st'
+  | Err e => exists x o, py_rd_parse_tree_statement L parse_len lower ro fuel st = MExc x o /\ exc_err x = e
+  | OutOfFuel => True
+  end.
+Proof. exact statement_gen_expanded. Qed.
+Print Assumptions gen_parse_tree_statement_eq.
